@@ -14,6 +14,7 @@ MC_Programs1 == {<<x>> : x \in Ops("b1")}
 ReqKinds == {"lookup_a", "getattr_root", "getattr_in", "rdp_root"}
 MC_Req1 == {<<a>> : a \in ReqKinds}
 MC_Req2 == {<<a, b>> : a, b \in ReqKinds}
+MC_Req2same == {<<a, a>> : a \in ReqKinds}       \* what the replay can script (one script per backend instance)
 \* a request on an inode of a mount makes sense only if something was mounted at the start (the client got the number from it)
 Valid == \A r \in Reqs : ReqOps[r] = "getattr_in" => B0(Init0) # NoFs
 AllDone == \A t \in {0} \cup Reqs : pc[t] = "Done"
